@@ -5,7 +5,12 @@ P=$1; M=$2; shift 2
 src=${WT:-/tmp/wt}/$P/_out/$M
 id=$P$M
 # second-round changes (WT=/tmp/wt2) are kept as <P>C and <P>D
-if [ "${WT:-/tmp/wt}" != "/tmp/wt" ]; then case $M in A) id=${P}C;; B) id=${P}D;; esac; fi
+# fourth-round (adversarial) changes (WT=/tmp/wt4) are kept as <P>E and <P>F
+case "${WT:-/tmp/wt}" in
+/tmp/wt) ;;
+/tmp/wt4) case $M in A) id=${P}E;; B) id=${P}F;; esac;;
+*) case $M in A) id=${P}C;; B) id=${P}D;; esac;;
+esac
 [ -f "$src/patch.diff" ] || { echo "$id: no patch"; exit 1; }
 v=$(/verif/tools/verifymut.sh $id $src)
 echo "$v"
